@@ -161,6 +161,11 @@ func (r *rig) roundTrip(req *http.Request) (*http.Response, error) {
 		case "offer-garbage-sdp":
 			b, _ := messages.EncodePollResponseWithRelayURL(`{"type":"offer","sdp":"garbage"}`, true, "unknown", o.RelayURL, "")
 			return httpResp(200, string(b)), nil
+		case "offer-parser-panic-sdp":
+			// SDP text on which pion's parser panics (D14): must be refused like any undecodable offer
+			sd, _ := json.Marshal(map[string]string{"type": "offer", "sdp": "v=0\r\no=- 1 1 IN IP4 0.0.0.0\r\ns=-\r\nt=0 0\r\nr= \r\nm=application 9 UDP/DTLS/SCTP webrtc-datachannel\r\nc=IN IP4 0.0.0.0\r\n"})
+			b, _ := messages.EncodePollResponseWithRelayURL(string(sd), true, "unknown", o.RelayURL, "")
+			return httpResp(200, string(b)), nil
 		case "offer-answer-type":
 			b, _ := messages.EncodePollResponseWithRelayURL(`{"type":"answer","sdp":"v=0\r\n"}`, true, "unknown", o.RelayURL, "")
 			return httpResp(200, string(b)), nil
@@ -455,7 +460,7 @@ func runSessions(t *testing.T, c sessCase) error {
 	return quiesce("after all sessions ended")
 }
 
-var failKinds = []string{"poll-transport-error", "poll-500", "poll-malformed", "poll-empty", "poll-error-status", "poll-huge", "offer-undecodable", "offer-type-confusion", "offer-garbage-sdp", "offer-answer-type", "answer-transport-error", "answer-client-gone", "answer-500", "answer-malformed", "relay-url"}
+var failKinds = []string{"poll-transport-error", "poll-500", "poll-malformed", "poll-empty", "poll-error-status", "poll-huge", "offer-undecodable", "offer-type-confusion", "offer-garbage-sdp", "offer-parser-panic-sdp", "offer-answer-type", "answer-transport-error", "answer-client-gone", "answer-500", "answer-malformed", "relay-url"}
 
 var relayHosts = []string{"127.0.0.1", "127.9.8.7", "localhost", "snowflake.torproject.net", "evil.example.com", "snowflake.torproject.net.evil.example", "xsnowflake.torproject.net", "SNOWFLAKE.torproject.net", ""}
 
